@@ -38,7 +38,7 @@ OUTSIDE = "ill-framed headers; headers arriving without credit; more than 5 head
 class HeaderRxHarness(Harness):
     domains = ("ss",)
 
-    def __init__(self, n_packets=2, lead=6, spacing=2, free_enable=False, gaps=()):
+    def __init__(self, n_packets=2, lead=9, spacing=2, free_enable=False, gaps=()):
         super().__init__()
         from luna.gateware.usb.usb3.link.receiver import HeaderPacketReceiver
         self.dut = HeaderPacketReceiver()
@@ -103,9 +103,15 @@ class HeaderRxHarness(Harness):
         m.d.comb += self.v["lc_format"].eq(xfer & Mux(second,
                                                        (sctrl != 0) | (sdata[0:16] != sdata[16:32]) | (sdata[4:7] != 0),
                                                        (sdata != ss_link.LCSTART[0]) | (sctrl != 0xF)))
-        is_lgood = ev_lc & (cmd == ss_link.LGOOD)
-        is_lcrd = ev_lc & (cmd == ss_link.LCRD)
-        is_lbad = ev_lc & (cmd == ss_link.LBAD)
+        # commands completing while the link is down, and the one command already on the wire when it went down /
+        # was reset, do not belong to the new link session
+        stale = Signal(name="lc_stale")
+        live = Signal(name="lc_live")
+        is_lgood = Signal(name="is_lgood")
+        is_lcrd = Signal(name="is_lcrd")
+        is_lbad = Signal(name="is_lbad")
+        m.d.comb += [is_lgood.eq(ev_lc & live & (cmd == ss_link.LGOOD)), is_lcrd.eq(ev_lc & live & (cmd == ss_link.LCRD)),
+                     is_lbad.eq(ev_lc & live & (cmd == ss_link.LBAD))]
         self.obs("ev_lc", ev_lc)
         self.obs("lc_cmd", cmd)
         self.obs("lc_sub", sub)
@@ -119,6 +125,12 @@ class HeaderRxHarness(Harness):
         m.d.comb += down_ev.eq((last_en & ~enable) | reset)
         up_ev = Signal(name="g_up_ev")
         m.d.comb += up_ev.eq(enable & ~last_en)
+
+        m.d.comb += live.eq(enable & ~stale)
+        with m.If(ev_lc):
+            m.d.ss += stale.eq(0)
+        with m.If(down_ev & dut.source.valid & ~ev_lc):
+            m.d.ss += stale.eq(1)
 
         g_exp = Signal(3, name="g_exp")             # next expected header sequence number
         g_ign = Signal(name="g_ign")                # ignoring headers until the partner's retry
@@ -136,7 +148,6 @@ class HeaderRxHarness(Harness):
 
         seq_now = src.lcw_now[0:3]
         hdr_now = Signal(107, name="hdr_now")
-        m.d.comb += hdr_now.eq(Cat(src.f[0]["dw0"], Const(0, 75)))   # placeholder, overwritten below
         # header content of the packet currently being completed (DW0..2 registers hold the words already sent)
         m.d.comb += hdr_now.eq(Cat(src.dw[0], src.dw[1], src.dw[2], src.lcw_now))
 
@@ -231,9 +242,6 @@ class HeaderRxHarness(Harness):
                 m.d.ss += g_ack.eq(Mux(reset, 0, g_exp))
                 with m.If(reset):
                     m.d.ss += g_exp.eq(0)
-            # ghost ignores commands completing while the link is down
-            for s in (is_lgood, is_lcrd, is_lbad):
-                pass
             with m.If(~enable | down_ev):
                 m.d.ss += [up_age.eq(0), seen_valid.eq(0)]
             with m.Else():
@@ -327,23 +335,23 @@ _NO_EXTRA = {"retry_required": 0, "keepalive": 0, "lxu": 0}
 def queries(tier):
     quick = tier == "quick"
     qs = []
-    f2 = lambda: HeaderRxHarness(n_packets=2, lead=6, spacing=2)
-    f3 = lambda: HeaderRxHarness(n_packets=3, lead=6, spacing=1)
+    f2 = lambda: HeaderRxHarness(n_packets=2, lead=9, spacing=2)
+    f3 = lambda: HeaderRxHarness(n_packets=3, lead=9, spacing=1)
     hint = {"*": {"retry_required": 0, "keepalive": 0, "lxu": 0}}
-    qs.append(Query("bmc_2hp_free", f2, f2().K if quick else f2().K + 6, timeout=600, hints=hint,
+    qs.append(Query("bmc_2hp_free", f2, f2().K if quick else f2().K + 6, timeout=600, hints=hint, split=False,
                     covers=["delivered_k1", "lgood_ack", "lbad_sent", "adv_done", "four_credits", "lcrd_after_free"],
                     desc="2 symbolic headers; ready/consumption/retry/LRTY/keepalive/LXU strobes free every cycle"))
-    qs.append(Query("bmc_3hp_plain", f3, f3().K + (0 if quick else 6), layer=_NO_EXTRA, timeout=600, hints=hint,
+    qs.append(Query("bmc_3hp_plain", f3, f3().K + (0 if quick else 6), layer=_NO_EXTRA, timeout=600, hints=hint, split=False,
                     covers=["ignored_then_accepted", "wrong_seq_dropped"],
                     desc="layer: no LRTY/keepalive/LXU requests; 3 symbolic headers (bad header, ignored header, retry, "
                          "wrong sequence number), ready and consumption free"))
     if not quick:
-        f5 = lambda: HeaderRxHarness(n_packets=5, lead=6, spacing=1)
-        qs.append(Query("bmc_5hp_ready", f5, f5().K, layer=dict(_NO_EXTRA, src_ready=1), covers=[], timeout=900,
+        f5 = lambda: HeaderRxHarness(n_packets=5, lead=9, spacing=1)
+        qs.append(Query("bmc_5hp_ready", f5, f5().K, layer=dict(_NO_EXTRA, src_ready=1), covers=[], timeout=900, split=False,
                         desc="layer: PHY always ready, no LRTY/keepalive/LXU; 5 headers (buffer wrap-around, "
                              "credit re-issue), consumption free"))
-        fg = lambda: HeaderRxHarness(n_packets=2, lead=6, spacing=2, gaps=(2, 4))
-        qs.append(Query("bmc_2hp_gaps", fg, fg().K, covers=[], timeout=900,
+        fg = lambda: HeaderRxHarness(n_packets=2, lead=9, spacing=2, gaps=(2, 4))
+        qs.append(Query("bmc_2hp_gaps", fg, fg().K, covers=[], timeout=900, split=False,
                         desc="2 headers with invalid cycles inside them; everything else free"))
     qs.append(Query("cosim", f3, 0, kind="cosim", cosim_cycles=120 if quick else 600))
     return qs
